@@ -22,17 +22,15 @@ const PTR_MASK: u64 = 0x00ff_ffff_ffff_fff8;
 const BEING_FORWARDED: u64 = 0b10;
 const FORWARDED: u64 = 0b11;
 
-fn check_protocol<VM: VMBinding>(bits_in_pointer_word: bool) {
+/// Step 1: claiming. Two tracers in sequence on an arbitrary initial state.
+fn check_claim<VM: VMBinding>() {
     let bits_spec: MetadataSpec = *VM::VMObjectModel::LOCAL_FORWARDING_BITS_SPEC.as_spec();
     let mut env = Env::new();
     env.place(&bits_spec);
     let obj = env.object();
     let pb = env.pos(&bits_spec);
-    let pp = (false, 2usize, 0u32, 64u32); // the forwarding pointer word is header word 0
     let s0 = env.snap();
     let b0 = field(&s0, pb);
-
-    // tracer 1
     let r1 = of::attempt_to_forward::<VM>(obj) as u64;
     let s1 = env.snap();
     assert!(r1 == b0, "C17.attempt_to_forward.returns_previous_bits");
@@ -43,71 +41,108 @@ fn check_protocol<VM: VMBinding>(bits_in_pointer_word: bool) {
     } else {
         assert!(same(&s0, &s1), "C17.attempt_to_forward.loser_changes_nothing");
     }
-    // tracer 2 (after tracer 1's step)
     let r2 = of::attempt_to_forward::<VM>(obj) as u64;
     assert!(r2 != 0 && r2 == field(&s1, pb), "C17.attempt_to_forward.second_tracer_never_wins");
     assert!(same(&s1, &env.snap()), "C17.attempt_to_forward.second_tracer_changes_nothing");
     assert!(of::is_forwarded_or_being_forwarded::<VM>(obj), "C17.is_forwarded_or_being_forwarded.after_attempt");
-
-    if b0 == 0 {
-        // the winner copies
-        let new_ref: usize = kani::any();
-        kani::assume(new_ref != 0 && (new_ref as u64) & !PTR_MASK == 0);
-        ctl::set_copy_result(new_ref);
-        let calls0 = ctl::copy_calls();
-        let mut ctx = GCWorkerCopyContext::<VM>::new_non_copy();
-        let mut seen = 0usize;
-        let r = of::forward_object::<VM>(obj, CopySemantics::DefaultCopy, &mut ctx, |o| seen = o.to_raw_address().as_usize());
-        std::mem::forget(ctx);
-        let s3 = env.snap();
-        assert!(r.to_raw_address().as_usize() == new_ref && seen == new_ref, "C17.forward_object.returns_the_copy");
-        assert!(ctl::copy_calls() == calls0 + 1, "C17.forward_object.copies_exactly_once");
-        assert!(field(&s3, pb) == FORWARDED, "C17.forward_object.leaves_forwarded_state");
-        assert!(frame(&s1, &s3, pb, Some(pp)), "C17.forward_object.touches_only_forwarding_bits_and_pointer_word");
-        if !bits_in_pointer_word {
-            assert!(s3.hdr[2] & !PTR_MASK == s1.hdr[2] & !PTR_MASK, "C17.write_forwarding_pointer.keeps_bits_outside_the_pointer_mask");
-        }
-        assert!(of::is_forwarded::<VM>(obj), "C17.is_forwarded.after_forward_object");
-        // every reader obtains the winner's reference
-        assert!(of::read_forwarding_pointer::<VM>(obj).to_raw_address().as_usize() == new_ref, "C17.read_forwarding_pointer.returns_winners_reference");
-        assert!(of::spin_and_get_forwarded_object::<VM>(obj, BEING_FORWARDED as u8).to_raw_address().as_usize() == new_ref, "C17.spin_and_get.stale_being_forwarded_gets_winners_reference");
-        assert!(of::spin_and_get_forwarded_object::<VM>(obj, FORWARDED as u8).to_raw_address().as_usize() == new_ref, "C17.spin_and_get.forwarded_gets_winners_reference");
-        // a late tracer sees FORWARDED and does not copy
-        assert!(of::attempt_to_forward::<VM>(obj) as u64 == FORWARDED && same(&s3, &env.snap()), "C17.attempt_to_forward.late_tracer_sees_forwarded");
-        // readers do not write
-        assert!(same(&s3, &env.snap()), "C17.readers_change_nothing");
-        // clearing resets only the bits
-        of::clear_forwarding_bits::<VM>(obj);
-        let s4 = env.snap();
-        assert!(field(&s4, pb) == 0 && frame(&s3, &s4, pb, None), "C17.clear_forwarding_bits.resets_only_the_bits");
-    } else if b0 == FORWARDED {
-        // forwarded by an earlier winner: readers return the stored pointer (masked), whatever the other header bits are
-        let want = (s0.hdr[2] & PTR_MASK) as usize;
-        if want != 0 {
-            assert!(of::read_forwarding_pointer::<VM>(obj).to_raw_address().as_usize() == want, "C17.read_forwarding_pointer.returns_masked_pointer_word");
-            assert!(of::spin_and_get_forwarded_object::<VM>(obj, FORWARDED as u8).to_raw_address().as_usize() == want, "C17.spin_and_get.returns_masked_pointer_word");
-        }
-    }
-    // a tracer that saw 00 (winner declined to move / not in a copying cycle) gets the unmoved object
+    // a tracer that saw 00 gets the unmoved object
     assert!(of::spin_and_get_forwarded_object::<VM>(obj, 0) == obj, "C17.spin_and_get.not_forwarded_returns_the_object");
     kani::cover!(b0 == 0, "C17.cover.winner_path");
     kani::cover!(b0 == FORWARDED, "C17.cover.already_forwarded_path");
     kani::cover!(b0 == BEING_FORWARDED, "C17.cover.being_forwarded_path");
 }
 
+/// Step 2: the winner copies (state BEING_FORWARDED, as left by step 1) and every reader agrees.
+fn check_copy<VM: VMBinding>(bits_in_pointer_word: bool) {
+    let bits_spec: MetadataSpec = *VM::VMObjectModel::LOCAL_FORWARDING_BITS_SPEC.as_spec();
+    let mut env = Env::new();
+    env.place(&bits_spec);
+    let obj = env.object();
+    let pb = env.pos(&bits_spec);
+    let pp = (false, 2usize, 0u32, 64u32); // the forwarding pointer word is header word 0
+    let s1 = env.snap();
+    kani::assume(field(&s1, pb) == BEING_FORWARDED);
+    let new_ref: usize = kani::any();
+    kani::assume(new_ref != 0 && (new_ref as u64) & !PTR_MASK == 0);
+    ctl::set_copy_result(new_ref);
+    let calls0 = ctl::copy_calls();
+    let mut ctx = GCWorkerCopyContext::<VM>::new_non_copy();
+    let mut seen = 0usize;
+    let r = of::forward_object::<VM>(obj, CopySemantics::DefaultCopy, &mut ctx, |o| seen = o.to_raw_address().as_usize());
+    std::mem::forget(ctx);
+    let s3 = env.snap();
+    assert!(r.to_raw_address().as_usize() == new_ref && seen == new_ref, "C17.forward_object.returns_the_copy");
+    assert!(ctl::copy_calls() == calls0 + 1, "C17.forward_object.copies_exactly_once");
+    assert!(field(&s3, pb) == FORWARDED, "C17.forward_object.leaves_forwarded_state");
+    assert!(frame(&s1, &s3, pb, Some(pp)), "C17.forward_object.touches_only_forwarding_bits_and_pointer_word");
+    if !bits_in_pointer_word {
+        assert!(s3.hdr[2] & !PTR_MASK == s1.hdr[2] & !PTR_MASK, "C17.write_forwarding_pointer.keeps_bits_outside_the_pointer_mask");
+    }
+    assert!(of::is_forwarded::<VM>(obj), "C17.is_forwarded.after_forward_object");
+    // the pointer word now holds exactly the winner's reference under the mask: what every reader returns (check_read
+    // proves that readers return the masked pointer word of a FORWARDED object and write nothing)
+    assert!((s3.hdr[2] & PTR_MASK) as usize == new_ref, "C17.forward_object.stores_the_winners_reference_in_the_pointer_word");
+}
+
+/// Step 2b: after the copy, a late tracer sees FORWARDED and changes nothing; clearing resets only the bits.
+fn check_after_copy<VM: VMBinding>() {
+    let bits_spec: MetadataSpec = *VM::VMObjectModel::LOCAL_FORWARDING_BITS_SPEC.as_spec();
+    let mut env = Env::new();
+    env.place(&bits_spec);
+    let obj = env.object();
+    let pb = env.pos(&bits_spec);
+    let s3 = env.snap();
+    kani::assume(field(&s3, pb) == FORWARDED);
+    assert!(of::attempt_to_forward::<VM>(obj) as u64 == FORWARDED, "C17.attempt_to_forward.late_tracer_sees_forwarded");
+    assert!(same(&s3, &env.snap()), "C17.late_tracer_changes_nothing");
+    of::clear_forwarding_bits::<VM>(obj);
+    let s4 = env.snap();
+    assert!(field(&s4, pb) == 0 && frame(&s3, &s4, pb, None), "C17.clear_forwarding_bits.resets_only_the_bits");
+}
+
+/// Step 3: an object forwarded by an earlier winner: readers return the stored pointer (masked), whatever the
+/// other header bits are.
+fn check_read<VM: VMBinding>() {
+    let bits_spec: MetadataSpec = *VM::VMObjectModel::LOCAL_FORWARDING_BITS_SPEC.as_spec();
+    let mut env = Env::new();
+    env.place(&bits_spec);
+    let obj = env.object();
+    let pb = env.pos(&bits_spec);
+    let s0 = env.snap();
+    kani::assume(field(&s0, pb) == FORWARDED);
+    let want = (s0.hdr[2] & PTR_MASK) as usize;
+    kani::assume(want != 0);
+    assert!(of::read_forwarding_pointer::<VM>(obj).to_raw_address().as_usize() == want, "C17.read_forwarding_pointer.returns_masked_pointer_word");
+    assert!(of::spin_and_get_forwarded_object::<VM>(obj, FORWARDED as u8).to_raw_address().as_usize() == want, "C17.spin_and_get.returns_masked_pointer_word");
+    assert!(of::spin_and_get_forwarded_object::<VM>(obj, BEING_FORWARDED as u8).to_raw_address().as_usize() == want, "C17.spin_and_get.stale_bits_return_masked_pointer_word");
+    assert!(same(&s0, &env.snap()), "C17.readers_change_nothing");
+}
+
 macro_rules! c17 {
-    ($name:ident, $vm:ty, $inword:expr) => {
+    ($name:ident, $f:ident, $vm:ty $(, $arg:expr)*) => {
         #[kani::proof]
         #[kani::unwind(6)]
         #[kani::stub(mmtk::util::metadata::side_metadata::global_side_metadata_base_address, stub_base)]
         fn $name() {
-            check_protocol::<$vm>($inword);
+            $f::<$vm>($($arg),*);
         }
     };
 }
-c17!(c17_protocol_bits_on_side, KVM<8, 64, 0>, false);
-c17!(c17_protocol_bits_in_pointer_word, KVM<8, 64, 1>, true);
-c17!(c17_protocol_bits_in_low_header_byte, KVM<8, 64, 2>, false);
+type F0 = KVM<8, 64, 0>;
+type F1 = KVM<8, 64, 1>;
+type F2 = KVM<8, 64, 2>;
+c17!(c17_claim_bits_on_side, check_claim, F0);
+c17!(c17_claim_bits_in_pointer_word, check_claim, F1);
+c17!(c17_claim_bits_in_low_header_byte, check_claim, F2);
+c17!(c17_copy_bits_on_side, check_copy, F0, false);
+c17!(c17_copy_bits_in_pointer_word, check_copy, F1, true);
+c17!(c17_copy_bits_in_low_header_byte, check_copy, F2, false);
+c17!(c17_after_copy_bits_on_side, check_after_copy, F0);
+c17!(c17_after_copy_bits_in_pointer_word, check_after_copy, F1);
+c17!(c17_after_copy_bits_in_low_header_byte, check_after_copy, F2);
+c17!(c17_read_bits_on_side, check_read, F0);
+c17!(c17_read_bits_in_pointer_word, check_read, F1);
+c17!(c17_read_bits_in_low_header_byte, check_read, F2);
 
 /// attempt_to_forward against the interference contract of the metadata CAS (see interference.rs): whatever finitely
 /// many spurious CAS failures occur, a tracer is told "not forwarded yet, you copy" (return value 00) only if this very
